@@ -19,3 +19,14 @@ pub open spec fn surp(a: IsoDate, b: IsoDate, s: int) -> bool {
 }
 pub open spec fn smul(s: int, x: int) -> int { if s == 1 { x } else if s == -1 { -x } else { 0 } }
 pub open spec fn mk(y: int, m: int, d: int) -> IsoDate { IsoDate { year: y as i32, month: m as u8, day: d as u8 } }
+/// the causes for which AddISODate / CalendarDateAdd may refuse (C04 / C08): a component outside the 32-bit range, an
+/// intermediate year-month outside the supported years, `reject` with a day that does not exist, a day offset beyond
+/// twice the supported span, or a result outside the supported range
+pub open spec fn add_refused(date: IsoDate, y: int, m: int, w: int, d: int, overflow: ArithmeticOverflow) -> bool {
+    !(i32::MIN <= y <= i32::MAX && i32::MIN <= m <= i32::MAX && i32::MIN <= w <= i32::MAX && i32::MIN <= d <= i32::MAX)
+    || !(-271_821 <= ym_norm_y(date.year + y, date.month + m) <= 275_760)
+    || (overflow == ArithmeticOverflow::Reject && add_ym_rejects(date, y, m))
+    || !(-100_000_001 <= add_ym_days(date, y, m) <= 100_000_000)
+    || d + 7 * w > 200_000_000 || d + 7 * w < -200_000_031
+    || !(-100_000_001 <= add_iso_days(date, y, m, w, d) <= 100_000_000)
+}
